@@ -602,6 +602,7 @@ def default_theory_per_channel(check, prog):
                         isinstance(n.args[0], ast.Name) and n.args[0].id in selected:
                     per_channel = True
     sites = 0
+    allreads = {}
     for f in seen:
         reads = set()
         for n in ast.walk(funcs[f]):
@@ -625,13 +626,19 @@ def default_theory_per_channel(check, prog):
                                       if isinstance(e, ast.Constant)]
                 reads |= set(x for x in names if x in selectable)
         sites += 1
-        check.require(per_channel or not reads, 'S5-default-theory-per-channel', f,
-                      'the default theory is decided from what channel selection '
-                      'cannot change (the class of the scatterer), or on the '
-                      'scatterer selected for the channel',
-                      '%s:%d' % (rel, funcs[f].lineno),
-                      fail_detail='decided once, before the channel loop, from the '
-                      'members\' %s -- which may be per-channel dictionaries or '
-                      'labelled arrays: the multi-channel calculation then uses '
-                      'another theory than each single-channel one' % sorted(reads))
+        if reads:
+            allreads[f] = sorted(reads)
+    # one obligation for the decision as a whole (however it is split into helpers)
+    check.require(per_channel or not allreads, 'S5-default-theory-per-channel',
+                  'default theory of a sphere collection',
+                  'the default theory is decided from what channel selection '
+                  'cannot change (the class of the scatterer), or on the '
+                  'scatterer selected for the channel',
+                  '%s:%d' % (rel, funcs[root].lineno),
+                  fail_detail='decided once, before the channel loop, from the '
+                  'members\' %s (read in %s) -- which may be per-channel dictionaries '
+                  'or labelled arrays: the multi-channel calculation then uses '
+                  'another theory than each single-channel one' % (
+                      sorted(set(x for v in allreads.values() for x in v)),
+                      ', '.join(sorted(allreads))))
     check.floor('functions of the default-theory decision', sites, 2)
